@@ -818,5 +818,24 @@ def register_access_and_queue_order(ctx: Ctx, py: PyProgram) -> None:
         ctx.violation("C14.1/fifo-order", key_of(KM_PY, "KeyboardMatrix.fifo_snapshot", "pending events out of queue order"),
                       f"fifo_snapshot with head={head}, tail={tail} lists slots {[x[1] for x in (ret or [])]}, the queue order (oldest first) is {[x[1] for x in want]}: "
                       "once the ring wraps, events are reported out of order (a release before its press)", f"{KM_PY}:{fn.lineno}")
+    # (c) the debounce / repeat settings the matrix is built with are the ones it uses: each setting parameter of the constructor is
+    # stored as a function of itself and constants only (a floor such as max(1, x) is fine; tying one setting to another changes
+    # the configured interval)
+    init = km.methods.get("__init__")
+    ctx.need(init is not None, "KeyboardMatrix.__init__ vanished")
+    iparams = {a_.arg for a_ in init.args.args + init.args.kwonlyargs if a_.arg != "self"}
+    k_set = 0
+    for a in ast.walk(init):
+        if isinstance(a, ast.Assign) and len(a.targets) == 1 and isinstance(a.targets[0], ast.Attribute) and attr_chain(a.targets[0].value) == "self" and a.targets[0].attr in iparams \
+                and any(w in a.targets[0].attr for w in ("threshold", "delay", "interval")):
+            k_set += 1
+            others = {x.id for x in ast.walk(a.value) if isinstance(x, ast.Name) and x.id in iparams and x.id != a.targets[0].attr} | \
+                     {x.attr for x in ast.walk(a.value) if isinstance(x, ast.Attribute) and attr_chain(x.value) == "self"}
+            if others:
+                ctx.violation("C14.4/settings-exact", key_of(KM_PY, "KeyboardMatrix.__init__", f"{a.targets[0].attr} depends on another setting"),
+                              f"the constructor stores `{unparse(a)[:80]}`: the effective {a.targets[0].attr} depends on {sorted(others)}, so a matrix configured with this value debounces / repeats with another one "
+                              "(KIL keeps showing a released key, or the release event comes late)", f"{KM_PY}:{a.lineno}")
+    ctx.need(k_set >= 4, f"KeyboardMatrix.__init__: timing settings not found ({k_set})")
+    ctx.instance("C14.4/settings-exact", "timing settings stored by the matrix constructor as functions of their own parameter only", k_set, 4)
     ctx.instance("C14.4/register-access-pure", "register-access entry points of the matrix followed through their helpers: no store to a KeyState field", n, 3)
     ctx.instance("C14.1/fifo-order", "fifo_snapshot interpreted for every (head, tail) of the ring with symbolic slots: oldest first", m, 64)
